@@ -222,6 +222,13 @@ void run_case(const uint8_t* data, size_t size, vf::Case& c) {
   if (mode == 0xF0) { char32_t cp = b.u32(); if (cp > 0x10FFFF || (cp >= 0xD800 && cp <= 0xDFFF)) return; VF_TAG("map_cell"); return check_map(cp, c); }
   if (mode == 0xF1) { char32_t cp = b.u32(); if (cp > 0x10FFFF || (cp >= 0xD800 && cp <= 0xDFFF)) return; VF_TAG("nfc_single"); return check_nfc(std::u32string(1, cp), c, "single code point"); }
   if (mode == 0xF2) { char32_t a = b.u32(), d = b.u32(); if (a > 0x10FFFF || d > 0x10FFFF) return; VF_TAG("nfc_pair"); return check_nfc(std::u32string{a, d}, c, "pair"); }
+  if (mode == 0xF5) {  // every code point through the FULL decompose/compose path: next to U+00E9 U+0323, which defeats the already-NFC shortcut
+    char32_t cp = b.u32();
+    bool before = b.u8() & 1;
+    if (cp > 0x10FFFF || (cp >= 0xD800 && cp <= 0xDFFF)) return;
+    VF_TAG("nfc_slow_path_cell");
+    return check_nfc(before ? std::u32string{cp, 0xE9, 0x323} : std::u32string{0xE9, 0x323, cp}, c, "code point next to a sequence that forces full normalisation");
+  }
   if (mode == 0xF3) {
     int id = b.u8() % kProbes;
     char32_t cp = b.u32();
@@ -297,6 +304,13 @@ bool property_enumerate(const vf::EmitFn& emit) {
     if (cp >= 0xD800 && cp <= 0xDFFF) continue;
     put(0xF0, {cp});
     put(0xF1, {cp});
+    // 2a'. the same code point through the full decompose / reorder / compose path
+    for (uint8_t before : {0, 1}) {
+      std::vector<uint8_t> v{0xF5};
+      for (int k = 0; k < 4; k++) v.push_back((uint8_t)(cp >> (8 * k)));
+      v.push_back(before);
+      emit(v);
+    }
   }
   // 2b. starter x mark pairs: every code point with a decomposition or a composition
   //     partner, against one mark per combining class and its composition partners
